@@ -454,6 +454,20 @@ def step (w : World) (line : String) : World × String :=
         | .inserted n => (w, "inserted " ++ toString n)
       | none => (w, "no-store")
     | _, _ => (w, "bad-op")
+  -- `Replica::insert`: the emptiness guard, then `put` (a refused write was never offered)
+  | ["insertlocal", sid, tok] =>
+    match parseNat? sid, parseEntry? tok with
+    | some sid, some e =>
+      if Replica.insertGuard e then (w, "err:entry-is-empty") else
+      match w.getSpec sid with
+      | some s =>
+        let (s', out) := Spec.put s e
+        let w := (w.setSpec sid s').addOffered sid e
+        match out with
+        | .notInserted => (w, "notinserted")
+        | .inserted n => (w, "inserted " ++ toString n)
+      | none => (w, "no-store")
+    | _, _ => (w, "bad-op")
   | ["dump", sid] =>
     match parseNat? sid with
     | some sid =>
@@ -547,6 +561,17 @@ def step (w : World) (line : String) : World × String :=
   | ["tlocal", sid, tok] =>
     match parseNat? sid, parseEntry? tok with
     | some sid, some e =>
+      match w.getT sid with
+      | some t =>
+        let (t', out) := Tables.localPut t e
+        (w.setT sid t', showInsertResult out)
+      | none => (w, "no-store")
+    | _, _ => (w, "bad-op")
+  -- `Replica::insert` on the tables: the emptiness guard, then as `tlocal`
+  | ["tinsert", sid, tok] =>
+    match parseNat? sid, parseEntry? tok with
+    | some sid, some e =>
+      if Replica.insertGuard e then (w, "err:entry-is-empty") else
       match w.getT sid with
       | some t =>
         let (t', out) := Tables.localPut t e
@@ -657,6 +682,11 @@ def step (w : World) (line : String) : World × String :=
           match out with | .notInserted => "notinserted" | .inserted n => "inserted " ++ toString n)
       | none => (w, "no-store")
     | _, _, _ => (w, "bad-op")
+  -- `Replica::insert` at replica i: refused by the emptiness guard, nothing is written anywhere
+  | ["wrefused", sid, _i, tok] =>
+    match parseNat? sid, parseEntry? tok with
+    | some _, some e => (w, if Replica.insertGuard e then "err:entry-is-empty" else "not-refused")
+    | _, _ => (w, "bad-op")
   -- an entry reaches replica i by gossip; `now` is i's clock
   | ["wdeliver", sid, i, ns, now, tok] => swarmDeliver w false sid i ns now tok
   -- … or inside a message of a session (only the verdict is observable)
